@@ -138,7 +138,8 @@ CONTRACTS.update(
                 "forall(lambda j: (len({T}) == 2 and isinstance({T}[0], parser.whitespace) and not isinstance({T}[1], {NB})) or (len({T}) == 1 and not isinstance({T}[0], {NB})), 0, len(lToi))".format(T=T_.format(k="j"), NB=NB),
                 "self.indent_style == 'spaces' or self.indent_style == 'smart_tabs'",
             ],
-            modifies=["self.violations"],
+            # the action and solution fields are written on the violation objects the analysis creates
+            modifies=["self.violations", "heap:New.action", "heap:New.sSolution"],
             ensures=[
                 # every violation the analysis adds satisfies the precondition of _fix_violation (V_F)
                 "len(self.violations) >= len(old(self.violations))",
